@@ -58,6 +58,8 @@ def e1_configs(tier):
     W = stages.Walk
     cfgs = [
         W(kind="generic", depth=1, W=1),
+        # one worker, four parents ready at once: more completion reports than the bounded queue of reports holds
+        W(kind="generic", depth=2, W=1),
         W(kind="generic", depth=1, W=2),
         W(kind="generic", depth=1, W=3),
         W(kind="generic", depth=2, W=2, apex=(1, 1, 0)),
@@ -122,7 +124,6 @@ def e1_configs(tier):
         cfgs += [
             W(kind="generic", depth=2, W=2),
             W(kind="generic", depth=2, W=3),
-            W(kind="generic", depth=2, W=1),
             W(kind="generic", depth=2, W=2, pipe_capacity=1),
             W(kind="generic", depth=2, W=2, with_pause=True),
             W(kind="generic", depth=1, W=3, contended_timeouts=True),
